@@ -125,6 +125,35 @@ fn run_big_chunks(rep: &mut Report, rng: &mut Rng, thorough: bool, sweep: bool) 
     }
 }
 
+/// LZMA2 in NORMAL mode over (nearly) incompressible data: every chunk ends at the 64 KiB compressed limit, usually in
+/// the middle of a multi-symbol parse of the optimal parser, and is then stored uncompressed - the encoder is reset
+/// while symbols are still queued (`LZMAEncoder::reset` -> `NormalEncoderMode::reset`)
+fn run_stored_normal(rep: &mut Report, rng: &mut Rng, thorough: bool, sweep: bool) {
+    for k in 0..(if thorough || sweep { 40 } else { 12 }) {
+        let mut r = rng.fork();
+        let len = r.range(700_000, 1_200_000) as usize;
+        let data: Vec<u8> = if k % 3 == 2 { r.bytes(len).into_iter().map(|b| b % 200).collect() } else { r.bytes(len) };
+        let mut o = gen_lzopts(&mut r, true, 1 << 20, false);
+        o.normal = true;
+        o.bt4 = k % 2 == 0;
+        o.dict = *r.pick(&[1u32 << 16, 1 << 18, 1 << 20]);
+        o.preset = None;
+        o.nice = *r.pick(&[16u32, 32, 64, 273]);
+        o.depth = 0;
+        let detail = || json!({"format": "lzma2", "stratum": "stored-normal", "opts": o.json(), "data_len": data.len(), "data_fnv": fnv(&data), "case": k});
+        rep.count("stratum.stored-normal");
+        match lzma2_compress(&data, &o, None, &[data.len()], 0) {
+            Outcome::Ok(c) => match lzma2_decompress(&c, o.dict, None, &[1 << 16], data.len() + 16) {
+                Outcome::Ok((out, used)) if out == data && used == c.len() => {}
+                Outcome::Ok(_) => rep.fail("lzma2-roundtrip-mismatch", "LZMA2 round trip returned different bytes (stored-normal stratum)", detail()),
+                other => rep.fail(&format!("lzma2-roundtrip-{}", other.class()), &format!("LZMA2 own reader fails on own output: {}", other.describe()), detail()),
+            },
+            other => rep.fail(&format!("lzma2-write-{}", other.class()), &format!("LZMA2 writer failed on in-range options: {}", other.describe()), detail()),
+        }
+        rep.case(format!("lzma2:stored-normal:d{}:bt4{}", dict_class(o.dict), o.bt4), true, || detail());
+    }
+}
+
 /// data whose period is the dictionary size +- a few bytes: the nearest earlier occurrence of every byte pair /
 /// triple lies exactly at the edge of what the dictionary (and the match finders' cyclic buffers) may reach
 fn run_dict_edge(rep: &mut Report, rng: &mut Rng, thorough: bool, sweep: bool) {
@@ -251,6 +280,7 @@ pub fn run(rep: &mut Report, rng: &mut Rng, thorough: bool) {
     // the LZMA2 writer in fast mode against `Model/Lzma2Writer.lean` (`lzma2w.fast`), byte for byte
     crate::lzma2w::run_lzma2w(rep, &mut rng.fork(), if thorough { 900 } else if sweep { 300 } else { 80 }, thorough, !thorough);
     run_big_chunks(rep, rng, thorough, sweep);
+    run_stored_normal(rep, &mut rng.fork(), thorough, sweep);
     let cases = if thorough { 3000 } else { 260 };
     let max = if thorough { 2 << 20 } else { 96 << 10 };
     // model decode is slower than the real one: cap what is sent to the model
